@@ -209,7 +209,10 @@ class VirtualClock:
     T0 = 1000.0
     D0 = 5000.0
 
-    def __init__(self, expire_at=None, time_limit=None, display_bits=None, display_interval=0.1):
+    def __init__(self, expire_at=None, time_limit=None, display_bits=None, display_interval=0.1, ramp=None):
+        # ramp=tick: deadline reads return T0 + k*tick for the k-th read instead of jumping; the
+        # deadline then passes at the first read with k*tick >= time_limit
+        self.ramp = ramp
         self.expire_at = expire_at
         self.time_limit = time_limit
         self.display_bits = display_bits
@@ -230,6 +233,13 @@ class VirtualClock:
             if meth == "elapsed" and caller == "remaining":
                 k = self.limit_reads
                 self.limit_reads += 1
+                if self.ramp is not None:
+                    val = self.T0 + k * self.ramp
+                    if self.time_limit is not None and val - self.T0 >= self.time_limit:
+                        self.expired_seen = True
+                    self.reads.append(("limit", k, "ramp", current_trial()))
+                    self.last_ramp = val
+                    return val
                 if self.expire_at is not None and k >= self.expire_at:
                     self.expired_seen = True
                 who = ""
@@ -240,6 +250,8 @@ class VirtualClock:
                 self.reads.append(("limit", k, who, current_trial()))
                 return late if self.expired_seen else self.T0
             self.reads.append(("limit_" + meth, caller))
+            if self.ramp is not None:
+                return self.T0 if meth == "__init__" else getattr(self, "last_ramp", self.T0)
             return late if (self.expired_seen and meth != "__init__") else self.T0
         if meth == "elapsed" and caller == "should_display":
             k = self.display_reads
